@@ -1067,6 +1067,12 @@ class Engine:
         """result of a call that leaves the repository: typed by the sidecar's external_returns table (else opaque) and
         remembered so that contracts can name it through `observes`"""
         from .verify import symbolic_value
+        if "obs:" + attr in st.ghost and not st.ghost.get("obs_used:" + attr) and not self.pure:
+            # a precondition already named the result of this (first) call: the call returns that very value
+            st.ghost["obs_used:" + attr] = True
+            return st.ghost["obs:" + attr]
+        if not self.pure:
+            st.ghost["obs_used:" + attr] = True
         texpr = self.contracts.external_returns.get(attr) if self.contracts is not None else None
         if texpr is not None:
             tmod = self.fe.module(self.contracts.ext_module) if self.contracts.ext_module else st.frames[0].module
@@ -1488,6 +1494,11 @@ class Engine:
                     self.agg_member_fact(st, name, obj_t, before)
                     touched.append((name, a, before))
         st.write_field(obj_t, attr, v.val())
+        if self.contracts is not None and isinstance(v, SRef):
+            for name, a in self.contracts.aggregates.items():
+                if a["over"] == attr:
+                    # the owning dict itself is (re)bound: the aggregate restarts from the new dict - 0 when that dict is empty
+                    st.ghost["agg:" + name] = z3.IntVal(0) if st.must(st.clen(v.t) == 0) else sym.fresh_int("agg_" + name)
         for name, a, before in touched:
             after = self.agg_contrib(st, name, obj_t)
             held = Val.bval(st.read_field(obj_t, f"__in_{a['over']}"))
